@@ -206,7 +206,7 @@ def write_replay(pid, tier, viol, unit_runs, witness=None):
 HARNESS_TARGET = os.path.join(VERIF, '.cache', 'harness-target')
 WITNESS_TESTS = {
     'C01': ['c01_search'], 'C02': ['c01_search'], 'C03': ['c03_witness', 'c03_search'], 'C05': ['c05_witness', 'c05_uses'], 'C10': ['c10_witness', 'c10_search'],
-    'C09': ['c09_witness', 'c09_session'], 'C12': ['c12_witness'], 'C13': ['c13_witness'], 'C17': ['c17_witness'], 'C18': ['c18_witness'], 'C19': ['c19_witness'], 'C14': ['c14_witness', 'c14_search'], 'C15': ['c15_witness', 'c15_search'], 'C16': ['c16_witness', 'c16_alias'],
+    'C09': ['c09_witness', 'c09_session'], 'C12': ['c12_witness'], 'C13': ['c13_witness'], 'C17': ['c17_witness'], 'C18': ['c18_witness'], 'C19': ['c19_witness'], 'C14': ['c14_witness', 'c14_search'], 'C20': ['c20_vocab'], 'C15': ['c15_witness', 'c15_search'], 'C16': ['c16_witness', 'c16_alias'],
 }
 
 
@@ -573,7 +573,9 @@ def main(argv):
         # witness search on the real code (both tiers; it only runs on a failing or undecided tree): adds a concrete failing input
         # to the report when it finds one among the recorded inputs / small enumerative searches of this property
         try:
-            witness = witness_search(pid, budget_s=(600 if a.tier == 'thorough' else 180))
+            # the recorded inputs and searches of the property, then its bounded corpora (on an undecided tree they have not run yet)
+            wt = list(WITNESS_TESTS.get(pid, [])) + [b['test'] for b in bounded if b['test'] not in WITNESS_TESTS.get(pid, [])]
+            witness = witness_search(pid, budget_s=(600 if a.tier == 'thorough' else 180), tests=wt)
         except Exception as e:
             ev['coverage']['witness_search_error'] = str(e)
         ev['coverage']['witness'] = witness
@@ -611,7 +613,7 @@ def main(argv):
         print('VIOLATION property=%s replay=%s' % (pid, path))
         return 1
     if undecided:
-        print('UNDECIDED property=%s reason=%s' % (pid, undecided[:1500]))
+        print('UNDECIDED property=%s reason=%s' % (pid, ' | '.join(undecided[:1500].split('\n'))))
         return 2
     if viol:
         path = write_replay(pid, a.tier, viol, unit_runs, witness)
